@@ -12,6 +12,7 @@ import TaskctlVerif.Model.Imports
 import TaskctlVerif.Model.Refs
 import TaskctlVerif.Model.Loader
 import TaskctlVerif.Model.Output
+import TaskctlVerif.Model.Decode
 /-!
 Line-protocol oracle: one case per line on stdin (`<family> <payload>`), one observation per line on
 stdout.  Compiled from exactly the definitions the theorems are about (core Lean only).
@@ -340,6 +341,21 @@ def prefixedCase (fields : List String) : String :=
   let toks := chunks.flatMap Out.tokens
   ",".intercalate (toks.map fun t => hexStr (t.map Char.ofNat))
 
+/-- `native`: the Go types the three parsers hand to the loader for a mapping, the probe entries
+(dict, flag, list, number, text), a list of stages and the tasks section -/
+def nativeCase : String :=
+  let fmts : List (String × Decode.Format) := [("yaml", .yaml), ("json", .json), ("toml", .toml)]
+  ";".intercalate (fmts.flatMap fun (nm, f) =>
+    let ty (fld : Decode.Field) : String := (Decode.reprField f fld).goType
+    [ s!"{nm}.map={ty (.dict [])}",
+      s!"{nm}.probe.dict={ty (.dict [("k", .text "v")])}",
+      s!"{nm}.probe.flag={ty (.scalar (.flag true))}",
+      s!"{nm}.probe.list={ty (.items [.text "a"])}",
+      s!"{nm}.probe.number={ty (.scalar (.number 3))}",
+      s!"{nm}.probe.text={ty (.scalar (.text "x"))}",
+      s!"{nm}.stagelist={ty (.tables [])}",
+      s!"{nm}.tasks={ty (.dict [])}" ])
+
 def handle (line0 : String) : String :=
   if line0.startsWith "args " then argsCase ((line0.dropEndWhile (· == '\n')).toString) else
   let line := line0.trimAscii.toString
@@ -361,6 +377,7 @@ def handle (line0 : String) : String :=
   | "envfile" :: rest => envfileCase rest
   | "impshape" :: rest => impshapeCase rest
   | "prefixed" :: rest => prefixedCase rest
+  | "native" :: _ => nativeCase
   | _ => "bad-op"
 
 partial def loop (h : IO.FS.Stream) (out : IO.FS.Stream) : IO Unit := do
